@@ -9,4 +9,5 @@ cc -shared -fPIC -O1 -o ../shim/faultfs.so ../shim/faultfs.c -ldl -lpthread
 cc -shared -fPIC -O1 -o ../shim/mmapfail.so ../shim/mmapfail.c -ldl -lpthread
 cc -shared -fPIC -O1 -o ../shim/shortread.so ../shim/shortread.c -ldl
 (cd ../harness-loom && RUSTFLAGS="--cfg jubako_verif --cfg jubako_verif_loom" CARGO_TARGET_DIR=../harness/target-loom cargo build --offline --release 2>&1 | tail -1)
+(cd ../harness-proto && cargo build --offline --release 2>&1 | tail -1)
 echo "setup done"
